@@ -110,11 +110,10 @@ def oracle(case, out):
         fails.append((None, "lossless flag set but the reconstruction differs from the data"))
     # the bound value the stream was produced with
     b6, b10 = int(d["b6"], 16), int(d["b10"], 16)
+    if ty < 2 and mode == 0 and b6 != f32bits(absb):
+        # float/double, constant streams included: the block carries the absolute bound the call was made with ((float) of it)
+        fails.append((None, "absolute bound reported %g, requested %g (%s stream)" % (f32(b6), absb, "constant" if d["const"] == "1" else "regular")))
     if mode in (0, 2, 3) and d["const"] == "0":
-        # float/double: the block carries the absolute bound actually used ((float) of it)
-        used = e if mode == 0 else None
-        if ty < 2 and mode == 0 and b6 != f32bits(absb):
-            fails.append((None, "absolute bound reported %g, requested %g" % (f32(b6), absb)))
         if ty >= 2 and b6 != f32bits(absb):
             cls = "meta_int_bound_from_config" if b6 == f32bits(CFG_ABS) else None
             fails.append((cls, "integer stream reports absolute bound %g, requested %g" % (f32(b6), absb)))
